@@ -67,6 +67,7 @@ impl<R: Read + Seek> ReadBox<&mut R> for TrafBox {
                     "traf box contains a box with a larger size than it",
                 ));
             }
+            check_child_size(s)?;
 
             match name {
                 BoxType::TfhdBox => {
